@@ -1,5 +1,5 @@
 import Driver.Loop
-import Midgard.Model.TimeFormat
+import Midgard.Model.TimeText
 import Midgard.Generated.TimeScaleTables
 
 /-! Driver for C02: the time-format model (decimal year uses the regenerated TAI-UTC table). -/
@@ -48,7 +48,7 @@ def toJds (fmt : String) (scale : Scale) (v : String) (v2 : String) : Option Str
     let f ← textFmt? fmt
     if v2 ≠ "-" then pure "err" else
     let s ← decodeHex? v
-    match textToJds f s with
+    match textToJds f s.toList with
     | some j => pure (showJD j)
     | none => pure "err"
 
@@ -71,7 +71,7 @@ def fromJds (fmt : String) (scale : Scale) (j : JD) : Option String := do
   | "decimalyear" => pure (showRat (dyFromJds taiutc consts.tol scale j))
   | _ =>
     let f ← textFmt? fmt
-    pure (encodeHex (textFromJds f j))
+    pure (encodeHex (String.ofList (textFromJds f j)))
 
 def handle : List String → Option String
   | ["c02", "tojds", fmt, scale, v, v2] => do
